@@ -64,4 +64,40 @@ theorem quic_life_src : quic_life = "serveDNSMsg,Msg,normalizeTCP,packWithPrefix
 /-- DNSCrypt: normalise and hand to the library; never disposed of. -/
 theorem dnscrypt_life_src : dnscrypt_life = "serveDNSMsg,Msg,normalize,WriteMsg" := by decide
 
+/-! Deepening: accept loop, byte-buffer lifetimes, DoQ FIN, JSON `ct`, defaults. -/
+
+/-- `acceptUDPMsg` swallows non-critical read errors and `dns.ErrShortRead` (`Agd.Serve.udpAcceptFails true`). -/
+theorem udp_accept_filter_src : udp_accept_filter = "err != nil | isNonCriticalNetError(err) || errors.Is(err, dns.ErrShortRead)" := by decide
+/-- `serveUDP` runs while started and ends on the first error of `acceptUDPMsg` (`Agd.Serve.udpLoop`). -/
+theorem udp_loop_conds_src : udp_loop_conds = "err != nil | !s.isStarted()" := by decide
+theorem udp_loop_for_src : udp_loop_for = "s.isStarted()" := by decide
+/-- UDP request buffer: taken, read into, put back on a read error; otherwise served and only then put back
+(`Agd.Serve.reqBufLife .udp`). -/
+theorem udp_req_buf_life_src : udp_req_buf_life = "Get,readUDPMsg,Put,Submit,serveUDPPacket,Put" := by decide
+/-- `serveUDPPacket`: completion is signalled and panics are contained whatever `serveDNS` does. -/
+theorem udp_serve_calls_src : udp_serve_calls = "Done,handlePanicAndRecover,serveDNS" := by decide
+/-- TCP/DoT request buffer: served, then put back (`Agd.Serve.reqBufLife .tcp`). -/
+theorem tcp_req_buf_life_src : tcp_req_buf_life = "readTCPMsg,Submit,serveTCPMessage,Put" := by decide
+/-- `readTCPMsg`: two length octets, a buffer of that length, exactly that many octets (`Agd.Serve.tcpFrames`). -/
+theorem tcp_read_calls_src : tcp_read_calls = "Read,getTCPBuffer,ReadFull,Put" := by decide
+/-- UDP and TCP writers put the response buffer back only in the deferred error branch
+(`Agd.Serve.respBufLife`). -/
+theorem udp_resp_buf_life_src : udp_resp_buf_life = "Get,Put,PackBuffer,WriteToSession" := by decide
+theorem udp_resp_buf_put_cond_src : udp_resp_buf_put_cond = "err != nil | err != nil | err != nil" := by decide
+theorem tcp_resp_buf_life_src : tcp_resp_buf_life = "Get,Put,packWithPrefix,Write" := by decide
+theorem tcp_resp_buf_put_cond_src : tcp_resp_buf_put_cond = "err != nil | err != nil | err != nil" := by decide
+/-- DoQ: the request buffer's `Put` is deferred in `readQUICMsg`; the stream is closed (deferred, first
+statement) whatever happens; the response buffer's `Put` is deferred before packing and writing. -/
+theorem quic_req_buf_life_src : quic_req_buf_life = "Get,Put,readAll,Unpack" := by decide
+theorem quic_resp_buf_life_src : quic_resp_buf_life = "OnCloserError,readQUICMsg,Get,Put,packWithPrefix,Write" := by decide
+/-- The JSON API path answers in wire format iff `ct` is the DoH MIME type, and stays a JSON request
+(`Agd.Serve.serveJSONWire`). -/
+theorem doh_ct_cond_src : doh_ct_cond = "parts[0] == \"\" | desiredCt == MimeTypeDoH" := by decide
+theorem doh_ct_returns_src : doh_ct_returns = "false, false, \"\" | true, false, MimeTypeDoH | true, true, MimeTypeDoH | true, true, MimeTypeJSON | false, false, \"\"" := by decide
+/-- Default UDP read buffer (`Agd.Serve.udpBufSize` = `dns.MinMsgSize`). -/
+theorem udp_size_default_src : udp_size_default = "cmp.Or(conf.UDPSize, dns.MinMsgSize)" := by decide
+/-- The non-writer keeps the last response written and hands that one out (`Agd.Serve.lastOr`). -/
+theorem nonwriter_res_src : nonwriter_res = "resp" := by decide
+theorem nonwriter_msg_src : nonwriter_msg = "r.res" := by decide
+
 end Agd.Tie.C01
